@@ -304,10 +304,10 @@ func TestC02_Enum(t *testing.T) {
 		t.Fatalf("HARNESS: %v", err)
 	}
 	alpha := fragEnumAlphabet()
-	k := envInt("VERIF_C02_FRAGS", 2)       // number of fragments
-	na := envInt("VERIF_C02_ALPHA", 6)      // alphabet size used
+	k := envInt("VERIF_C02_FRAGS", 2)  // number of fragments
+	na := envInt("VERIF_C02_ALPHA", 6) // alphabet size used
 	sh, shards := shard()
-	part := envInt("VERIF_C02_PARTS", 1)    // quick takes 1/parts of the space, chosen by seed
+	part := envInt("VERIF_C02_PARTS", 1) // quick takes 1/parts of the space, chosen by seed
 	seed := envInt("VERIF_SEED", 1)
 	// a "body" = one alphabet element + a subset of the k fragments spread after it
 	nBody := na * (1 << k)
